@@ -10,12 +10,8 @@ namespace IsoVerif.Gql
 /-- every carriage return is followed by a line feed -/
 def noLoneCr : Str → Bool
   | [] => true
-  | c :: r =>
-    if c == 13 then
-      match r with
-      | d :: r' => d == 10 && noLoneCr r'
-      | [] => false
-    else noLoneCr r
+  | [c] => c != 13
+  | c :: d :: r => if c == 13 then d == 10 && noLoneCr r else noLoneCr (d :: r)
 
 /-- the text contains no `\"""` -/
 def noEscTriple : Str → Bool
@@ -32,13 +28,19 @@ theorem unescapeTriple_id (f : Nat) (s : Str) (hf : s.length < f) (h : noEscTrip
     | cons c r =>
       simp only [noEscTriple, Bool.and_eq_true, Bool.not_eq_true'] at h
       have hr : unescapeTriple f r = r := ih r (by simp at hf; omega) h.2
-      unfold unescapeTriple
-      split
-      · rename_i r' heq1 heq2
-        -- c = 92 and r = 34 :: 34 :: 34 :: r' contradicts h.1
-        subst heq2
-        simp at h
-      · simp [hr]
+      simp [unescapeTriple, h.1, hr]
+
+theorem noLoneCr_tail (c : Nat) (r : Str) (hc : c ≠ 13) (h : noLoneCr (c :: r) = true) : noLoneCr r = true := by
+  cases r with
+  | nil => rfl
+  | cons d r' => simpa [noLoneCr, hc] using h
+
+theorem noLoneCr_cr (r : Str) (h : noLoneCr (13 :: r) = true) : ∃ r', r = 10 :: r' ∧ noLoneCr r' = true := by
+  cases r with
+  | nil => simp [noLoneCr] at h
+  | cons d r' =>
+    have : d = 10 ∧ noLoneCr r' = true := by simpa [noLoneCr] using h
+    exact ⟨r', by rw [this.1], this.2⟩
 
 /-- the state of `rustLines` at the end: is the last piece empty (so that it yields no line)? -/
 def trailingEmpty : Str → Str → Bool
@@ -46,8 +48,18 @@ def trailingEmpty : Str → Str → Bool
   | c :: r, cur => if c == 10 then trailingEmpty r [] else trailingEmpty r (c :: cur)
 
 def noCrHead : Str → Bool
-  | 13 :: _ => false
-  | _ => true
+  | [] => true
+  | c :: _ => c != 13
+
+theorem stripTrailingCr_noCrHead (cur : Str) (h : noCrHead cur = true) : stripTrailingCr cur = cur.reverse := by
+  cases cur with
+  | nil => rfl
+  | cons x xs =>
+    have hx : x ≠ 13 := by simpa [noCrHead] using h
+    unfold stripTrailingCr
+    split
+    · rename_i heq; simp at heq; exact absurd heq.1 hx
+    · rfl
 
 theorem split_vs_rust (n : Nat) : ∀ (s cur : Str), s.length ≤ n → noLoneCr s = true → noCrHead cur = true →
     splitLinesSpecAux s cur false = rustLines s cur ++ (if trailingEmpty s cur then [[]] else []) := by
@@ -64,35 +76,17 @@ theorem split_vs_rust (n : Nat) : ∀ (s cur : Str), s.length ≤ n → noLoneCr
     | cons c r =>
       by_cases h10 : c = 10
       · subst h10
-        have hr : noLoneCr r = true := by simpa [noLoneCr] using hs
+        have hr : noLoneCr r = true := noLoneCr_tail 10 r (by decide) hs
         have := ih r [] (by simp at hl; omega) hr rfl
-        have hcur : (match cur with | 13 :: cur' => cur'.reverse | _ => cur.reverse) = cur.reverse := by
-          cases cur with
-          | nil => rfl
-          | cons x xs =>
-            by_cases hx : x = 13
-            · subst hx; simp [noCrHead] at hc
-            · split
-              · rename_i heq; simp at heq; exact absurd heq.1 hx
-              · rfl
-        simp only [splitLinesSpecAux, rustLines, trailingEmpty, beq_self_eq_true, if_true, this, hcur,
-          Bool.false_eq_true, if_false, List.cons_append]
+        simp [splitLinesSpecAux, rustLines, trailingEmpty, this, stripTrailingCr_noCrHead cur hc]
       · by_cases h13 : c = 13
         · subst h13
-          cases r with
-          | nil => simp [noLoneCr] at hs
-          | cons d r' =>
-            have hs' : d = 10 ∧ noLoneCr r' = true := by simpa [noLoneCr] using hs
-            obtain ⟨hd, hr'⟩ := hs'
-            subst hd
-            have := ih r' [] (by simp at hl; omega) hr' rfl
-            simp [splitLinesSpecAux, rustLines, trailingEmpty, this]
-        · have hr : noLoneCr r = true := by simpa [noLoneCr, h13] using hs
-          have hc' : noCrHead (c :: cur) = true := by
-            unfold noCrHead
-            split
-            · rename_i heq; simp at heq; exact absurd heq.1 h13
-            · rfl
+          obtain ⟨r', hr, hr'⟩ := noLoneCr_cr r hs
+          subst hr
+          have := ih r' [] (by simp at hl; omega) hr' rfl
+          simp [splitLinesSpecAux, rustLines, trailingEmpty, this, stripTrailingCr]
+        · have hr : noLoneCr r = true := noLoneCr_tail c r h13 hs
+          have hc' : noCrHead (c :: cur) = true := by simp [noCrHead, h13]
           have := ih r (c :: cur) (by simp at hl; omega) hr hc'
           simp [splitLinesSpecAux, rustLines, trailingEmpty, h10, h13, this]
 
